@@ -228,7 +228,25 @@ func runC28(c *eng.Ctx) {
 		})
 		c.ErrChecked("CONST-batch-delete", "rpc-error", dd, rpc, "a failed delete is reported to the caller")
 	}
-	c.Expect("CONST-batch-delete", 6)
+	// the purge of folders left empty by a batch delete never removes a bucket directory (a direct child of the buckets
+	// folder): the delete is reached only when the parent it is issued under differs from BucketsPath, and it is
+	// non-recursive (a folder that still holds keys stays)
+	if fn := c.NeedFunc("weed/s3api", "(*S3ApiServer).doDeleteEmptyDirectories"); fn != nil {
+		dels := eng.Find(fn, eng.PlainCallTo("s3api.doDeleteEntry"))
+		if len(dels) == 0 {
+			c.Undecided("CONST-batch-delete", eng.FuncName(fn)+" purge", fn.Pos(), "doDeleteEntry call not found")
+		}
+		for i, d := range dels {
+			call := d.(*ssa.Call)
+			parent := eng.Arg(call, 1)
+			notBucket := eng.Cmp(func(v ssa.Value) bool { return v == parent }, func(v ssa.Value) bool { return eng.MentionsField(v, "S3ApiServerOption.BucketsPath") }, token.NEQ)
+			c.Guard("CONST-batch-delete", fmt.Sprintf("purge#%d never-a-bucket", i), fn, eng.Entry(fn), []ssa.Instruction{d}, eng.PassEdges(fn, notBucket),
+				"an empty folder is purged only when its parent (the very value the delete is issued under) is not the buckets folder: a bucket is never removed by deleting keys")
+			rec, okR := eng.ConstBool(eng.Arg(call, 4))
+			c.Ob("CONST-batch-delete", fmt.Sprintf("%s purge#%d non-recursive", eng.FuncName(fn), i), okR && !rec, call.Pos(), "the purge deletes a folder only when it is empty (non-recursive delete)")
+		}
+	}
+	c.Expect("CONST-batch-delete", 8)
 }
 
 // phiCarries: value e is a phi one of whose edges is v.
